@@ -23,6 +23,30 @@ def h64(obj):
         hashlib.blake2b(repr(obj).encode(), digest_size=8).digest(), 'big')
 
 
+def guarded(prop):
+    """Executor decorator: an exception escaping the executor (the oracle
+    expected a value and the library raised something the executor did not
+    anticipate) is reported as a violation instead of aborting the run."""
+    def deco(fn):
+        import functools
+
+        @functools.wraps(fn)
+        def wrapper(*a, **kw):
+            try:
+                return fn(*a, **kw)
+            except Exception as exc:
+                tb = traceback.extract_tb(exc.__traceback__)
+                where = next((f"{os.path.basename(fr.filename)}:{fr.lineno}"
+                              for fr in reversed(tb)
+                              if '/quantity/' in fr.filename), '')
+                return [(f"{prop}:unexpected-exception:{fn.__name__}:"
+                         f"{type(exc).__name__}",
+                         f"{fn.__name__}{a[1:]!r}: {type(exc).__name__}: "
+                         f"{exc} [{where}]")]
+        return wrapper
+    return deco
+
+
 class Stats:
     """What one partition of an exploration covered."""
 
